@@ -956,6 +956,32 @@ QExpect(s, q, arg) ==
 SeqToSet(q) == {q[i] : i \in DOMAIN q}
 NoDupSeq(q) == \A i, j \in DOMAIN q : i # j => q[i] # q[j]
 
+\* the attributes a list query reports for the element it abstracts to item k
+\* ("a|b|c" as the harness renders them); "?" when the element is not in the state
+BoolStr(b) == IF b THEN "true" ELSE "false"
+CritStr(c) == IF c = NoCrit THEN "none:0" ELSE c.kind \o ":" \o ToString(c.v)
+QAttr(s, q, k) ==
+  CASE q \in {"Classes", "ClassesByAdmin"} ->
+         IF ~HasClassId(s, k) THEN "?" ELSE
+         LET c == ClassById(s, k) IN c.admin \o "|" \o c.meta \o "|" \o c.ct
+    [] q \in {"Projects", "ProjectsByAdmin", "ProjectsByClass", "ProjectsByReferenceId"} ->
+         IF ~HasProjectId(s, k) THEN "?" ELSE
+         LET p == ProjectById(s, k) IN
+         p.admin \o "|" \o (IF HasClassKey(s, p.ck) THEN ClassByKey(s, p.ck).id ELSE "?")
+           \o "|" \o p.jur \o "|" \o p.meta \o "|" \o p.ref
+    [] q \in {"Batches", "BatchesByIssuer", "BatchesByClass", "BatchesByProject"} ->
+         IF ~HasBatchDenom(s, k) THEN "?" ELSE
+         LET b == BatchByDenom(s, k) IN
+         b.issuer \o "|" \o (IF HasProjectKey(s, b.pk) THEN ProjectByKey(s, b.pk).id ELSE "?")
+           \o "|" \o b.meta \o "|" \o BoolStr(b.open) \o "|" \o ToString(b.start) \o "|" \o ToString(b.end)
+    [] q = "Baskets" ->
+         IF ~HasBasket(s, k) THEN "?" ELSE
+         LET b == BasketByDenom(s, k) IN
+         b.name \o "|" \o b.ct \o "|" \o BoolStr(b.dar) \o "|" \o b.curator \o "|" \o CritStr(b.crit)
+    [] OTHER -> "?"
+C17_AttrsOK(s, x) ==
+  ("attrs" \in DOMAIN x /\ ~x.err) => \A i \in DOMAIN x.attrs : x.attrs[i].v = QAttr(s, x.q, x.attrs[i].k)
+
 \* one logged walk x = [q, arg, mode, limit, items, total, pages, err]
 C17_ListOK(s, x) ==
   LET e == QExpect(s, x.q, x.arg)
